@@ -29,6 +29,8 @@ way back through the bytes (`unproj_proj`) assumes the maps have left inverses
 import Mqtt.Proofs.Client
 import Mqtt.Proofs.AckQueue
 
+set_option linter.unusedSimpArgs false
+
 namespace Mqtt.Proofs.ClientQueues
 open Mqtt.Iface.Broker (Pub Packet Bytes)
 open Mqtt.Iface.Client
@@ -130,7 +132,7 @@ def cout (cd : Coding) (k : QKind) (rel : List Req) : COp → Fifo.SOut
   | _ => .ok true
 
 /-- the acknowledgement types `Ackqueue.Ack` looks up by identifier (every `Ack` of the client role
-on these five queues bears one of them: `evOps_ok`).  For other types the two sides differ:
+on these five queues bears one of them: `step_qof`).  For other types the two sides differ:
 `Queue.ack 13 id` marks the request bearing `id`, `Ackqueue.Ack` of a PINGRESP marks a ping. -/
 def okOp : COp → Bool
   | .ack t _ _ => Fifo.isIdAck t
@@ -614,5 +616,177 @@ theorem run_pings_ops (c : C) (evs : List Ev) :
   | cons ev evs ih =>
     rw [runState_cons, ih, step_pings_ops]
     simp only [histPOps, (prun_append _ _ _).1]
+
+/-! ## what is handed back
+
+The requests `processAcked` gets from `Acked()` while packet `p` is processed: the outputs of the
+calls `peerOps k p` (only an `acked` call has any). -/
+
+def relOf (k : QKind) (c : C) (p : Packet) : List Req := (crun (qof k c) (peerOps k p)).2.flatten
+
+def pingRelOf (c : C) (p : Packet) : List (Nat × Nat) := (prun c.pings (peerPOps p)).2.flatten
+
+/-- The requests the client model hands to the completion wrappers (`Proofs/Client.peerReleased`,
+the `rel` of `Model.Client.peer`) are the outputs of those calls: for the four queues of the sending
+side, for the inbound QoS 2 queue (handed to `onPublish`), and for the pings. -/
+theorem peer_released (c : C) (p : Packet) (id : Nat) :
+    (∀ k : Kind, peerReleased k c p = relOf (ofKind k) c p) ∧
+    peer c (.pubrel id) =
+      ({ c with pub2in := (crun c.pub2in (peerOps .pub2in (.pubrel id))).1 },
+       (relOf .pub2in c (.pubrel id)).flatMap
+          (fun r => match r.pub with
+            | some pb => onPublish { c with pub2in := (crun c.pub2in (peerOps .pub2in (.pubrel id))).1 } pb
+            | none => []) ++
+        [.wrote (.pubcomp id)]) ∧
+    peer c .pingresp =
+      ({ c with pings := (prun c.pings (peerPOps .pingresp)).1 },
+       (pingRelOf c .pingresp).flatMap (fun e => completeOut e.2 false)) := by
+  refine ⟨fun k => ?_, ?_, ?_⟩
+  · cases k <;> cases p <;>
+      simp [peerReleased, ackedQueue, relOf, ofKind, peerOps, crun, cstep, qof]
+  · simp only [peer, relOf, peerOps, crun, cstep, qof, List.flatten_cons, List.flatten_nil, List.nil_append,
+      List.append_nil]
+    rfl
+  · simp only [peer, pingRelOf, peerPOps, prun, pstep, List.flatten_cons, List.flatten_nil, List.nil_append,
+      List.append_nil]
+
+/-! ## back through the bytes
+
+`processAcked` does not get the request and its acknowledgement, it gets `Msgbuf` and `Ackbuf` and
+decodes them (`Mtype.New()`, `Decode`, `State.New()`, `Decode`); the completion wrapper of
+`subscribe` reads the filters from the decoded SUBSCRIBE and the return codes from the decoded
+SUBACK.  The client model keeps the decoded values.  `Decoding` names the decoders, `RoundTrip`
+what is assumed of them - and nothing else is. -/
+
+structure Decoding where
+  dec   : List UInt8 → Nat × Option Pub × List (Bytes × Nat)   -- identifier, PUBLISH fields, filters of `Msgbuf`
+  ackd  : List UInt8 → List Nat                                -- SUBACK return codes of `Ackbuf` (none for other types)
+  unclo : Nat → Nat × Nat                                      -- the callbacks an `OnComplete` value was built from
+
+/-- **The round-trip hypothesis.**  Decoding the bytes of a request gives back what was encoded;
+decoding the bytes of a SUBACK gives back its return codes, an acknowledgement of another type has
+none; an `OnComplete` value determines the callbacks it was made of.  (For `message.*.Encode` /
+`Decode` this is C03's round trip, `C03.decode_encode`, stated there on the codec model's `Msg`,
+not on the fields kept here: the tie between the two is by the correspondence runs only.) -/
+structure RoundTrip (cd : Coding) (dc : Decoding) : Prop where
+  req    : ∀ id pub topics, dc.dec (cd.enc id pub topics) = (id, pub, topics)
+  suback : ∀ id codes, dc.ackd (cd.ackb tSUBACK id codes) = codes
+  other  : ∀ t id, t ≠ tSUBACK → dc.ackd (cd.ackb t id []) = []
+  clo    : ∀ tag cb, dc.unclo (cd.clo tag cb) = (tag, cb)
+
+/-- what the client model would hold for a FIFO entry -/
+def unproj (dc : Decoding) (e : Fifo.Entry) : Req :=
+  { id := e.id, state := e.state, tag := (dc.unclo e.tag).1, pub := (dc.dec e.req).2.1,
+    topics := (dc.dec e.req).2.2, cb := (dc.unclo e.tag).2,
+    codes := if e.state == 0 then [] else dc.ackd e.ack }
+
+/-- return codes are kept with a SUBACK only (every `Ack` of the client role: `evOps_tidy`) -/
+def tidyOp : COp → Bool
+  | .ack t _ codes => t == tSUBACK || codes.isEmpty
+  | _ => true
+
+def TidyOps (ops : List COp) : Prop := ops.all tidyOp = true
+
+instance (ops : List COp) : Decidable (TidyOps ops) := by unfold TidyOps; infer_instance
+
+/-- a request that has not seen a SUBACK has no return codes -/
+def Tidy (q : Queue) : Prop := ∀ r ∈ q, r.state ≠ tSUBACK → r.codes = []
+
+theorem tidy_cstep {q : Queue} (h : Tidy q) (op : COp) (hop : tidyOp op = true) :
+    Tidy (cstep q op).1 ∧ ∀ r ∈ (cstep q op).2, r.state ≠ tSUBACK → r.codes = [] := by
+  cases op with
+  | wait id tag pub topics cb =>
+    refine ⟨?_, by intro r hr; cases hr⟩
+    simp only [cstep, Queue.wait]
+    split
+    · exact h
+    · intro r hr
+      rcases List.mem_append.mp hr with h1 | h1
+      · exact h r h1
+      · simp only [List.mem_singleton] at h1; subst h1; intro _; rfl
+  | ack t id codes =>
+    refine ⟨?_, by intro r hr; cases hr⟩
+    intro r hr
+    simp only [cstep, Queue.ack] at hr
+    obtain ⟨x, hx, hxr⟩ := List.mem_map.mp hr
+    split at hxr
+    · subst hxr
+      intro hne
+      simp only [tidyOp, Bool.or_eq_true, beq_iff_eq, List.isEmpty_iff] at hop
+      rcases hop with h1 | h1
+      · exact absurd h1 hne
+      · exact h1
+    · subst hxr; exact h x hx
+  | acked =>
+    have hc := acked_conservation q
+    constructor
+    · intro r hr
+      exact h r (by rw [← hc]; exact List.mem_append_right _ hr)
+    · intro r hr
+      exact h r (by rw [← hc]; exact List.mem_append_left _ hr)
+
+theorem tidy_crun {q : Queue} (h : Tidy q) (ops : List COp) (hops : TidyOps ops) :
+    Tidy (crun q ops).1 ∧ ∀ l ∈ (crun q ops).2, ∀ r ∈ l, r.state ≠ tSUBACK → r.codes = [] := by
+  induction ops generalizing q with
+  | nil => exact ⟨h, by intro l hl; cases hl⟩
+  | cons op ops ih =>
+    unfold TidyOps at hops
+    rw [List.all_cons, Bool.and_eq_true] at hops
+    obtain ⟨s1, s2⟩ := tidy_cstep h op hops.1
+    obtain ⟨i1, i2⟩ := ih s1 hops.2
+    refine ⟨i1, ?_⟩
+    intro l hl
+    simp only [crun, List.mem_cons] at hl
+    rcases hl with rfl | hl
+    · exact s2
+    · exact i2 l hl
+
+/-- nothing is lost on the way through the bytes: decoding the entry a request stands for gives
+the request back -/
+theorem unproj_proj {cd : Coding} {dc : Decoding} (rt : RoundTrip cd dc) (k : QKind) (r : Req)
+    (hr : r.state ≠ tSUBACK → r.codes = []) : unproj dc (proj cd k r) = r := by
+  obtain ⟨id, state, tag, pub, topics, cb, codes⟩ := r
+  simp only [unproj, proj, rt.req, rt.clo, Req.mk.injEq, true_and]
+  by_cases h0 : state = 0
+  · subst h0
+    exact (hr (show (0 : Nat) ≠ 9 by decide)).symm
+  · have h0' : (state == 0) = false := by simpa using h0
+    simp only [h0', Bool.false_eq_true, ↓reduceIte]
+    by_cases h9 : state = tSUBACK
+    · subst h9; exact rt.suback id codes
+    · have hc : codes = [] := hr h9
+      subst hc
+      exact rt.other state id h9
+
+theorem map_unproj_proj {cd : Coding} {dc : Decoding} (rt : RoundTrip cd dc) (k : QKind) (l : List Req)
+    (hl : ∀ r ∈ l, r.state ≠ tSUBACK → r.codes = []) : (l.map (proj cd k)).map (unproj dc) = l := by
+  induction l with
+  | nil => rfl
+  | cons r l ih =>
+    simp only [List.map_cons, unproj_proj rt k r (hl r List.mem_cons_self),
+      ih (fun x hx => hl x (List.mem_cons_of_mem _ hx))]
+
+theorem peerOps_tidy (k : QKind) (p : Packet) : TidyOps (peerOps k p) := by
+  unfold TidyOps
+  cases k <;> cases p <;> simp only [peerOps] <;> first | rfl | (split <;> rfl)
+
+theorem regOps_tidy (k : QKind) (call : Api) : TidyOps (regOps k call) := by
+  unfold TidyOps
+  cases k <;> cases call <;> simp only [regOps] <;> first | rfl | (split <;> rfl)
+
+theorem tidyOps_append {a b : List COp} (ha : TidyOps a) (hb : TidyOps b) : TidyOps (a ++ b) := by
+  unfold TidyOps at *
+  rw [List.all_append, ha, hb]; rfl
+
+theorem evOps_tidy (k : QKind) (c : C) (ev : Ev) : TidyOps (evOps k c ev) := by
+  cases ev <;> simp only [evOps] <;> first | rfl | split <;> first | rfl | skip
+  · exact regOps_tidy _ _
+  · exact peerOps_tidy _ _
+  · exact tidyOps_append (regOps_tidy _ _) (peerOps_tidy _ _)
+
+theorem histOps_tidy (k : QKind) (c : C) (evs : List Ev) : TidyOps (histOps k c evs) := by
+  induction evs generalizing c with
+  | nil => rfl
+  | cons ev evs ih => exact tidyOps_append (evOps_tidy k c ev) (ih _)
 
 end Mqtt.Proofs.ClientQueues
